@@ -42,6 +42,7 @@ pub fn zoo() -> SchemaDoc {
             obj("Query", &[], vec![f("me", n("Person")), f("animals", nn(l(n("Animal")))), f("search", l(nn(n("Anything")))), f("pet", n("Pet")), f("dog", nn(n("Dog"))), f("named", n("Named")), f("count", nn(n("Int")))]),
         ],
         schema_block: None,
+        input_defaults: vec![],
     }
 }
 
@@ -125,6 +126,20 @@ pub fn directed() -> Vec<Program> {
             Sel::obj("dog", vec![fld("id")]),
             Sel::obj("named", vec![t(), on("Dog", vec![Sel::obj("owner", vec![fld("name")])])]),
         ]),
+    ], |_| {}));
+    // 13. under an object parent: an inline fragment on an interface that refines back to the object, and deeper
+    out.push(prog(vec![
+        frag("DogDetails", "Dog", vec![fld("barks")]),
+        op("Refine", vec![
+            Sel::obj("dog", vec![on("Animal", vec![fld("name"), on("Dog", vec![fld("color"), Sel::obj("owner", vec![al("fullName", "name", vec![])])])]), fld("id")]),
+            Sel::obj("me", vec![on("Named", vec![on("Person", vec![fld("tags")])]), fld("name")]),
+        ]),
+    ], |_| {}));
+    // 14. rejected today (no __typename on the interface selection itself); if it is ever accepted, payloads of
+    //     the other runtime types must still deserialize
+    out.push(prog(vec![
+        frag("DogTn", "Dog", vec![t(), fld("barks")]),
+        op("TypenameElsewhere", vec![Sel::obj("animals", vec![fld("name"), sp("DogTn")]), Sel::obj("pet", vec![sp("DogTn")])]),
     ], |_| {}));
     // 11. the same schema, the extension's implementor only as a runtime type
     out.push(prog_on(zoo_extended(), vec![
